@@ -24,6 +24,47 @@ def model_array(model, label, ndim, fixed=None, offset=0):
     return a, chunks
 
 
+class _CheckedTarget:
+    """wraps the opened target of a write proxy: records writes whose block shape differs from the region's (zarr
+    silently broadcasts/truncates such blocks) — the C12 clause on the real task"""
+
+    def __init__(self, arr, log):
+        object.__setattr__(self, "_arr", arr)
+        object.__setattr__(self, "_log", log)
+
+    def __getattr__(self, name):
+        return getattr(self._arr, name)
+
+    def __getitem__(self, sel):
+        return self._arr[sel]
+
+    def __setitem__(self, sel, val):
+        import numpy as np
+
+        try:
+            if isinstance(sel, tuple) and all(isinstance(s_, slice) for s_ in sel):
+                want = tuple(s_.stop - s_.start for s_ in sel)
+                got = tuple(np.shape(val))
+                if got != want:
+                    self._log.append(f"block of shape {got} written into a region of shape {want}")
+        except Exception:  # noqa: BLE001
+            pass
+        self._arr[sel] = val
+
+
+def install_block_shape_check():
+    from cubed.primitive import types as T
+
+    log = []
+    orig = T.CubedArrayProxy.open
+
+    def open_(self):
+        return _CheckedTarget(orig(self), log)
+
+    T.CubedArrayProxy.open = open_
+    return log
+
+
 def run_array_case(build, reference, arrays, allowed_mem=2_000_000_000):
     """arrays: dict label -> (numpy array, chunks). build(xp, cubed_arrays) -> cubed array or tuple;
     reference(np, numpy_arrays) -> numpy array or tuple."""
@@ -41,6 +82,8 @@ def run_array_case(build, reference, arrays, allowed_mem=2_000_000_000):
             return False, f"NumPy raises {type(e).__name__}: {e} — outside the property's precondition"
         try:
             carr = {k: xp.asarray(v[0], chunks=v[1], spec=spec) for k, v in arrays.items()}
+            carr["__spec__"] = spec
+            shape_log = install_block_shape_check()
             res = build(xp, carr)
         except EXPLICIT as e:
             return False, f"declined at build time with {type(e).__name__}: {e}"
@@ -68,6 +111,8 @@ def run_array_case(build, reference, arrays, allowed_mem=2_000_000_000):
                 return True, f"shape {g.shape} != NumPy's {w.shape}"
             if not np.array_equal(g, w):
                 return True, f"values differ from NumPy: got {g.tolist()!r:.300} want {w.tolist()!r:.300}"
+        if shape_log:
+            return True, f"values equal NumPy's, but {len(shape_log)} task(s) wrote a mis-shaped block: {shape_log[0]}"
         return False, "equal to NumPy"
     finally:
         import shutil
